@@ -52,7 +52,7 @@ def COST(desc):
 
 
 def BOUND(tier):
-    return {"families": ["eph n=3 sector 1 (generic Model)", "holstein 2 molecules x 1 mode (HolsteinModel, needed by evolve_exact)"] +
+    return {"families": ["eph n=3 sector 1 (generic Model)", "holstein 2 molecules x 1 mode (HolsteinModel, needed by evolve_exact)", "the same with the state as a complex density operator (holstein-mpdm)"] +
             ([] if tier == "quick" else ["elec n=4 sector 2", "two-component n=3 sector (1,1)"]),
             "second_derivation": "state-producing subset" if tier == "quick" else "all state-producing methods"}
 
@@ -79,7 +79,8 @@ def make_ctx(fam, seed):
     c = Ctx()
     c.fam = fam
     loaded = fam.endswith("-loaded")
-    fam = fam.replace("-loaded", "")
+    as_dm = fam.endswith("-mpdm")
+    fam = fam.replace("-loaded", "").replace("-mpdm", "")
     if fam == "holstein":
         model = holstein_model()
         c.model = model
@@ -105,6 +106,11 @@ def make_ctx(fam, seed):
     # abort on over-complete bonds (a C09 finding).  `x` keeps its over-complete bonds.  Snapshots are taken afterwards.
     c.a.canonicalise()
     c.a.canonicalise()
+    if as_dm:
+        # the state under test is a density operator with a history: built from a pure state, then given a phase (what a complex
+        # operator, a real-time step or to_complex() leave behind: complex tensors and a complex prefactor)
+        c.a = MpDm.from_mps(c.a).scale(np.exp(0.3j))
+        c.x = MpDm.from_mps(c.x)
     if loaded:
         # the state under test went through dump + load (a complex state with a complex prefactor): a loaded object must behave
         # like any other object in every program below
@@ -484,9 +490,9 @@ def mutations():
 
 
 def cases(tier, seed):
-    fams = ["eph", "holstein", "holstein-loaded"] if tier == "quick" else ["eph", "holstein", "holstein-loaded", "eph-loaded", "elec", "two"]
+    fams = ["eph", "holstein", "holstein-loaded", "holstein-mpdm"] if tier == "quick" else ["eph", "holstein", "holstein-loaded", "holstein-mpdm", "eph-loaded", "elec", "two"]
     for fam in fams:
-        D = derivations(fam.replace("-loaded", ""))
+        D = derivations(fam.replace("-loaded", "").replace("-mpdm", ""))
         names = list(D)
         producing2 = STATE_PRODUCING_QUICK if tier == "quick" else [n for n in names if not n.startswith(("s.expect", "s.e_occ", "s.ph_occ", "s.calc", "s.dist", "x.dist", "s.dot", "s.angle", "s.norm", "s.todense"))]
         for m in names:
@@ -642,7 +648,7 @@ def run_program(fam, seed, m, m2, D, MU):
 
 def run_case(desc, seed):
     fam, m, m2 = desc["fam"], desc["m"], desc["m2"]
-    D = tree_derivations() if fam.startswith("tree:") else derivations(fam.replace("-loaded", ""))
+    D = tree_derivations() if fam.startswith("tree:") else derivations(fam.replace("-loaded", "").replace("-mpdm", ""))
     MU = tree_mutations() if fam.startswith("tree:") else mutations()
     viol = {}
     status, v, maxbond, nmut = run_program(fam, seed, m, m2, D, MU)
